@@ -4,8 +4,10 @@ SPEC = dict(
     driver='c18_pubfile',
     extra=['ref/ref.c', 'ref/ref_sig.c', 'ref/ref_pki.c', 'simnet.c'],
     rule='(struct) ALL record sequences up to a length bound over {header, certificate, publication, signature, unknown critical, unknown non-critical}, '
-         'each built and PKCS#7-signed with a test CA, plus wrong / truncated magic and trailing bytes / records on every otherwise valid sequence; '
-         '(trust) signer {chains to anchor, rogue CA, other e-mail} x configured anchor {good, rogue, none} x constraint set {none, matching, mismatching, two matching, one of two mismatching}, signature swapped between files; '
+         'each built and PKCS#7-signed with a test CA, plus wrong / truncated magic and trailing bytes / records on every otherwise valid sequence; every accepted file is also re-serialized '
+         '(KSI_PublicationsFile_serialize) and the signed range reported afterwards compared with the signature offset of the serialized bytes; '
+         '(trust) signer {chains to anchor, rogue CA, other e-mail} x configured anchor {good, rogue, none} x constraint set {none, matching, mismatching, two matching, one of two mismatching, matching / mismatching e-mail through KSI_CTX_setPublicationCertEmail}, each through parse, '
+         'KSI_PublicationsFile_fromFile, a file object parsed under another context, constraint lists on the file object, and verification repeated after a serialization; signature swapped between files; '
          '(flip) every single-bit change of a small signed file; (lookup) ALL publication-time sequences up to a length over times {1..5} x query times 0..6 and none x every lookup function, certificate ids present / absent / altered / prefix / extended. '
          'Oracle: reference structure rule, offset of the signature record, reference trust decision, reference scan.',
     bounds=dict(quick='record sequences len<=5 (9331 x variants); bit flips: 2 bits per byte of the file; publication-time sequences len<=3',
